@@ -274,6 +274,97 @@ func e2eRateComponent(r *hx.Run) {
 		r.Count("cmd:" + strings.Join(c.sub, " "))
 		r.Case(strings.Join(c.sub, " ")+"/"+rate, "limwire", strings.Join(c.sub, "_"), fmt.Sprint(n), fmt.Sprint(int64(w)), fmt.Sprint(count), fmt.Sprint(slack), obs)
 	}
+
+	// ---- the rate is the rate of the whole scan: (a) over the engine runs of a chunked port scan (more than 200 port
+	// ranges: every run builds its own limiter), (b) on a tun device (vpn mode) ----
+	tun, terr := newTun("tun0", "10.1.0.1/24")
+	if terr == nil {
+		defer tun.close()
+	}
+	extra := []string{"chunks", "tun"}
+	if r.Tier == "thorough" {
+		extra = []string{"chunks", "tun", "chunks", "tun", "tun", "chunks"}
+	}
+	for xi, kind := range extra {
+		perMs := 2 + rng.Intn(3)
+		n, w := 1000/perMs, time.Second
+		rate := fmt.Sprintf("%d/s", n)
+		var stamps []int64
+		var args []string
+		var res sxRun
+		slack := int64(300_000)
+		count := 0
+		name := ""
+		switch kind {
+		case "chunks":
+			target := labNet | uint32(32+rng.Intn(200))
+			p0 := 2000 + rng.Intn(50000)
+			count = 401 + rng.Intn(30)
+			var ps []string
+			for i := 0; i < count; i++ {
+				ps = append(ps, fmt.Sprint(p0+i))
+			}
+			pf := filepath.Join(dir, fmt.Sprintf("rate-ports-%d.txt", xi))
+			os.WriteFile(pf, []byte(strings.Join(ps, "\n")+"\n"), 0o644)
+			args = []string{"tcp", "syn", "--json", "--exit-delay", "5ms", "--rate", rate, "--ports-file", pf, "-a", writeArpCache(dir, []uint32{target}), v4Text(target)}
+			name = "tcp_syn_chunks"
+			lab.settle(30 * time.Millisecond)
+			lab.take()
+			res = runSX(nil, 120*time.Second, args...)
+			lab.settle(50 * time.Millisecond)
+			frames, ts := lab.takeStamped()
+			for j, f := range frames {
+				if len(f) >= 48 && f[12] == 8 && f[13] == 0 && f[23] == 6 && f[47] == 0x02 && binary.BigEndian.Uint32(f[30:34]) == target {
+					stamps = append(stamps, ts[j])
+				}
+			}
+		case "tun":
+			if terr != nil {
+				continue
+			}
+			sub := [][]string{{"tcp", "syn"}, {"udp"}, {"icmp"}}[xi%3]
+			base := tunNet | uint32(64+rng.Intn(2)*64)
+			args = append(append([]string{}, sub...), "--json", "--exit-delay", "30ms", "--rate", rate)
+			count = 64
+			if sub[0] != "icmp" {
+				p0 := 2000 + rng.Intn(50000)
+				args = append(args, "-p", fmt.Sprintf("%d-%d", p0, p0+3))
+				args = append(args, fmt.Sprintf("%s/28", v4Text(base)))
+			} else {
+				args = append(args, fmt.Sprintf("%s/26", v4Text(base)))
+			}
+			name = strings.Join(sub, "_") + "_tun"
+			slack = 6_000_000 // user-level read times off the tun device
+			tun.take()
+			res = runSX(nil, 120*time.Second, args...)
+			time.Sleep(50 * time.Millisecond)
+			frames, ts := tun.takeStamped()
+			for j, f := range frames {
+				if len(f) >= 20 && f[0]>>4 == 4 && binary.BigEndian.Uint32(f[16:20])&^63 == base&^63 && binary.BigEndian.Uint32(f[12:16]) == tunNet|1 {
+					proto := map[string]byte{"tcp": 6, "udp": 17, "icmp": 1}[sub[0]]
+					if f[9] == proto && !(proto == 6 && len(f) >= 34 && f[33]&0x04 != 0) {
+						stamps = append(stamps, ts[j])
+					}
+				}
+			}
+		}
+		obs := ""
+		if res.exit != 0 || res.timedOut {
+			obs = "FAIL exit=" + fmt.Sprint(res.exit) + " " + hx.HexS(lastLine(res.stderr))
+		} else {
+			var sb strings.Builder
+			sb.WriteString("t=")
+			for j, t := range stamps {
+				if j > 0 {
+					sb.WriteByte(',')
+				}
+				sb.WriteString(fmt.Sprint(t - stamps[0]))
+			}
+			obs = sb.String()
+		}
+		r.Count("rate:" + kind)
+		r.Case(name+"/"+rate, "limwire", name, fmt.Sprint(n), fmt.Sprint(int64(w)), fmt.Sprint(count), fmt.Sprint(slack), obs)
+	}
 }
 
 // ---------------------------------------------------------------- e2edelay
